@@ -9,7 +9,7 @@ From Coq Require Import ZArith QArith List Bool.
 From VL Require Import Prelude.Sx Prelude.PyDict Prelude.GDict Model.GetNBest Model.Divisor Model.HighestAverages
      Model.Convert Model.Condorcet
      Proofs.Dict_proofs Proofs.HA_proofs Proofs.Divisor_proofs Proofs.Mono_proofs Proofs.Additive_proofs
-     Proofs.Convert_proofs Proofs.CopelandMono_proofs.
+     Proofs.Convert_proofs Proofs.CopelandMono_proofs Proofs.Minimax_proofs.
 Import ListNotations.
 Open Scope Z_scope.
 
@@ -118,10 +118,16 @@ Proof.
   exact (copeland_monotone v v' w Hnd Hnd' Hnn Hnn' Hr so H).
 Qed.
 
-(* minimax and Schulze: full statements (decided per explored case by the relational checker of the check;
-   not yet theorems - listed as partial in the evidence) *)
-Definition C17_minimax_full_statement : Prop :=
-  forall v v' w sc, raises v v' w -> minimax sc v 1 = [Cand w] -> minimax sc v' 1 = [Cand w].
+(* minimax (all three pairwise win scorers): under the same relation a sole minimax winner stays the sole winner -
+   its worst defeat cannot grow, nobody else's can shrink *)
+Theorem C17_minimax : forall (v v' : pvotes) (w : C) (s : Condorcet.scorer),
+  (forall p n, In (p, n) v -> 0 <= n) -> (forall p n, In (p, n) v' -> 0 <= n) ->
+  (2 <= length (candidates v))%nat -> raises v v' w ->
+  minimax s v 1 = [Cand w] -> minimax s v' 1 = [Cand w].
+Proof. intros v v' w s Hnn Hnn' H2 Hr. exact (minimax_monotone v v' w Hnn Hnn' H2 Hr s). Qed.
+
+(* Schulze: full statement (decided per explored case by the relational checker of the check; not yet a theorem -
+   listed as partial in the evidence) *)
 Definition C17_schulze_full_statement : Prop :=
   forall v v' w, raises v v' w -> schulze v (candidates v) 1 = [Cand w] -> schulze v' (candidates v') 1 = [Cand w].
 
@@ -142,4 +148,5 @@ Print Assumptions C17_approval.
 Print Assumptions C17_plurality.
 Print Assumptions C17_positional.
 Print Assumptions C17_copeland.
+Print Assumptions C17_minimax.
 Print Assumptions C17_scorers_nonincreasing.
